@@ -450,6 +450,7 @@ func runCase(c *Case) map[string]interface{} {
 		e.mu.Lock()
 		e.evs = nil
 		e.mu.Unlock()
+		var extraEv [][]string
 		for _, op := range st.Ops {
 			switch op.Op {
 			case "write":
@@ -458,7 +459,12 @@ func runCase(c *Case) map[string]interface{} {
 				e.mu.Unlock()
 				// write-then-rename so that a reader never sees a half-written file
 				tmp := filepath.Join(dir, ".tmp-write")
-				if err := os.WriteFile(tmp, []byte(op.Src), 0o600); err != nil {
+				if op.Cid == "unread" { // an entry that cannot be opened, whoever runs the harness: a dangling symlink
+					_ = os.Remove(tmp)
+					if err := os.Symlink(filepath.Join(dir, ".no-such-target"), tmp); err != nil {
+						vh.Fatal("symlink: %v", err)
+					}
+				} else if err := os.WriteFile(tmp, []byte(op.Src), 0o600); err != nil {
 					vh.Fatal("write: %v", err)
 				}
 				if err := os.Rename(tmp, filepath.Join(dir, op.File)); err != nil {
@@ -489,12 +495,14 @@ func runCase(c *Case) map[string]interface{} {
 					}
 				}
 			case "loadall":
+				// with errorsAbort off a scan reports no error, whatever it met: an error is an observation
+				// (an event the model never has), not a harness failure
 				if err := r.LoadAllPrograms(); err != nil {
-					vh.Fatal("LoadAllPrograms: %v", err)
+					extraEv = append(extraEv, []string{"loadall_returned_error", err.Error()})
 				}
 			case "loadprog":
 				if err := r.LoadProgram(filepath.Join(dir, op.File)); err != nil {
-					vh.Fatal("LoadProgram: %v", err)
+					extraEv = append(extraEv, []string{"loadprogram_returned_error", err.Error()})
 				}
 			case "unload":
 				// UnloadProgram of a name without a handle dereferences nil: never provoke it,
@@ -579,6 +587,7 @@ func runCase(c *Case) map[string]interface{} {
 			}
 		}
 		e.mu.Unlock()
+		got.Ev = append(got.Ev, extraEv...)
 		got.ScrapeOK, got.Series, got.ScrapeEr = scrape(reg)
 		allGot = append(allGot, got)
 
